@@ -7,11 +7,23 @@ Description
 All exceptions exposed by the Vtl engine.
 """
 
+from contextvars import ContextVar
 from typing import Any, List, Optional
 
 from vtlengine.Exceptions.messages import centralised_messages
 
-dataset_output = None
+# Name of the output dataset of the statement under analysis, appended to error messages.
+# Context-local (one value per thread / async task) so that concurrent API calls do not see
+# each other's statement.
+_dataset_output: ContextVar[Optional[str]] = ContextVar("vtl_dataset_output", default=None)
+
+
+def set_dataset_output(name: Optional[str]) -> None:
+    _dataset_output.set(name)
+
+
+def get_dataset_output() -> Optional[str]:
+    return _dataset_output.get()
 
 
 class VTLEngineException(Exception):
@@ -45,6 +57,7 @@ class SemanticError(VTLEngineException):
     comp_code = None
 
     def __init__(self, code: str, comp_code: Optional[str] = None, **kwargs: Any) -> None:
+        dataset_output = get_dataset_output()
         if dataset_output:
             message = (
                 centralised_messages[code]["message"].format(**kwargs)
@@ -71,6 +84,7 @@ class RunTimeError(VTLEngineException):
         **kwargs: Any,
     ) -> None:
         message = centralised_messages[code]["message"].format(**kwargs)
+        dataset_output = get_dataset_output()
         if dataset_output:
             message += self.output_message + str(dataset_output)
 
@@ -167,6 +181,7 @@ class DataLoadError(VTLEngineException):
         **kwargs: Any,
     ) -> None:
         message = centralised_messages[code]["message"].format(**kwargs)
+        dataset_output = get_dataset_output()
         if dataset_output:
             message += self.output_message + " " + str(dataset_output)
         else:
